@@ -706,7 +706,7 @@ def check_C06(tier):
         return build_failure(pid, tier, msg)
     proof = common.prove(C06_THEOREMS, C06_MODULES)
     results = sweep.run(tier, rng)
-    ties = cert_ties(results, ["gramWF", "certA", "certT"])
+    ties = cert_ties(results, ["gramWF", "certA", "certT", "certCanon", "prodOK"])
     violations, samples = [], []
     runs = rejected = 0
     for r in results:
@@ -773,8 +773,8 @@ def check_C06(tier):
     return common.conclude(pid, tier, "proof", proof, ties, violations, cov, [])
 
 
-C06_THEOREMS = ["Y.Props.C06_safe", "Y.St0_valid", "Y.valid_viable"]
-C06_MODULES = ["Yv.Props.C06", "Yv.Abs.Prefix"]
+C06_THEOREMS = ["Y.Props.C06_safe", "Y.Props.C06_prefix", "Y.Props.C06_first_bad_token", "Y.Props.C06_error_prefix"]
+C06_MODULES = ["Yv.Props.C06", "Yv.Props.C06b"]
 
 
 # ------------------------------------------------------------------------------------------- X-based checks
@@ -1483,7 +1483,7 @@ def front_stage_ties(cid, rec, src, stages=("TOK", "AST", "GRAMMAR", "SYM", "RUL
 
 
 def unq(s):
-    return json.loads(s) if s.startswith('"') else s
+    return cfg._unq(s) if s.startswith('"') else s
 
 
 def digest_front(lines):
@@ -1885,13 +1885,14 @@ def c13_texts(tier, rng):
             pass
     for _ in range(6 if tier == "quick" else 40):
         base.append(gen.render_file(gen.file_spec(rng), rng))
-    texts = ["", "%", "%%", "%token <@", "%token <#val> NUM", "%start* L", "%token A\n%start", "%union", "%union {", "%{", "/*", "'", "\"", "{", "%token A\n%%\nS : A {",
+    texts = ["%token A \u0663\n%start S\n%%\nS : A ;\n", "\u0663", "%token A 1\u0663", "", "%", "%%", "%token <@", "%token <#val> NUM", "%start* L", "%token A\n%start", "%union", "%union {", "%{", "/*", "'", "\"", "{", "%token A\n%%\nS : A {",
              "%token A\n%%\nS : A /* x", "%prec", "%type", "%type <", "%left", "%token A 1 2 3 <", "$", "$$", "$end", "%token A\n%%\nS : %prec", "%token A\n%%\nS :", "%token A\n%%\nS"]
     step = 23 if tier == "quick" else 5
     for b in base:
         for k in range(0, len(b), step):
             texts.append(b[:k])
-    junk = list("%{}'\"/*<>|:;$ \n\t") + ["%%", "%{", "%}", "/*", "*/", "//", "%token", "%union", "%start", "%type", "%left", "%prec", "$$", "{", "}"]
+    junk = list("%{}'\"/*<>|:;$ \n\t") + ["%%", "%{", "%}", "/*", "*/", "//", "%token", "%union", "%start", "%type", "%left", "%prec", "$$", "{", "}",
+                                             "\u0663", "\u0967", "\u00e9", "\u03bb", "\u00a0", "\ufeff", "\r", "\x00", "-", "9"]
     n_edit = 400 if tier == "quick" else 6000
     for _ in range(n_edit):
         b = rng.choice(base)
@@ -2083,9 +2084,10 @@ def check_C14(tier):
     return common.conclude(pid, tier, C14_LEVEL, proof, [], violations, cov, [])
 
 
-C14_THEOREMS = []
-C14_MODULES = []
-C14_LEVEL = "exploration"
+C14_THEOREMS = ["C14.sites_as_expected", "C14.C14_order_irrelevant", "C14.sort_perm_eq", "C14.tabSorted_perm_eq",
+                "C14.writes_perm_eq", "C14.mem_perm", "C14.filter_isEmpty_perm"]
+C14_MODULES = ["Yv.Props.C14"]
+C14_LEVEL = "proof"
 
 
 # ------------------------------------------------------------------------------------------- C18
